@@ -17,7 +17,7 @@ func init() {
 			"R17.1 lock discipline: every read and write of TargetsDiscovery.{config,activeTargets,dropTargets} and of Explore.targets / exploringTarget.exploring, and every use (lookup, update, delete, range, len) of the maps loaded from them, happens with the owning mutex held (constructors on fresh objects exempt); " +
 			"R17.2 snapshots: exported getters return a map made in the call and filled under the lock; slices published in the guarded maps are only ever fresh slices or unmodified entries moved from the previous map (never a re-slice or in-place append of a published slice); " +
 			"R17.3 reload: ApplyConfig builds new maps that receive, for each job of the new configuration, the old entry under the same key - only for jobs that had one, since a key means the job had a discovery round -, and installs them (and the new config) in the same critical section; the explorer's ApplyConfig keeps exactly the entries whose job still exists; " +
-			"R17.4 per-job replacement: a discovery update installs one freshly built slice per job of the update (not carried across jobs); the explorer's table is replaced as a whole by a fresh map keyed by the hashes of the latest update only.",
+			"R17.4 per-job replacement: a discovery update installs one freshly built slice per job of the update (not carried across jobs) for every job of the update that has a configuration; the explorer's table is replaced as a whole, on every update, by a fresh map keyed by the hashes of the latest update only; R17.5 every translated target with (discovered) labels is listed - no further filter between translation and the per-job lists.",
 		Assumptions: []string{"go/types and go/ssa are correct", "lock identity is by mutex field, not by instance"}})
 }
 
@@ -430,6 +430,52 @@ func runC17(p *engine.Prog, r *engine.Report) {
 		r.Check(len(probs) == 0, "R17.3-reload", "explorer reload "+engine.FuncName(ap), engine.FuncName(ap), "a new table holding the old entries (same key) of jobs that still exist", strings.Join(probs, "; "))
 	}
 
+	// ---- R17.5 every target translated from the update is listed: the only reasons for leaving one out are the ones the
+	// translation itself gives (error of the group, no labels left). A further filter at this point (a second notion
+	// of "duplicate", a cache hit) makes the published sets differ from the update.
+	{
+		r.Min("R17.5-all-listed", 1)
+		n := 0
+		for _, fn := range p.Funcs {
+			if !engine.InPkg(fn, pkgDisc) {
+				continue
+			}
+			fi := p.Info(fn)
+			for _, in := range allInstrs(fn) {
+				call, ok := in.(*ssa.Call)
+				if !ok {
+					continue
+				}
+				bi, ok := call.Call.Value.(*ssa.Builtin)
+				if !ok || bi.Name() != "append" || !strings.HasSuffix(call.Type().String(), "discovery.SDTargets") {
+					continue
+				}
+				fromTr := false
+				for _, e := range varargElems(call.Call.Args[1]) {
+					if strings.Contains(fi.T(e).S, "targetsFromGroup(") {
+						fromTr = true
+					}
+				}
+				if !fromTr {
+					continue
+				}
+				n++
+				var probs []string
+				for _, g := range nonStructural(fi.Guards(call.Block())) {
+					switch {
+					case strings.Contains(g, "targetsFromGroup(") && strings.Contains(g, ".1,nil)"):
+					case strings.Contains(g, "Labels).Len(") || strings.Contains(g, "DiscoveredLabels("):
+					case strings.Contains(g, "."+fCfg.Name()+"[") && strings.Contains(g, "nil"):
+					case strings.Contains(g, "rangeok:"):
+					default:
+						probs = append(probs, "a translated target is listed only when "+short(g))
+					}
+				}
+				r.Check(len(probs) == 0, "R17.5-all-listed", fmt.Sprintf("listing#%d in %s", n, engine.FuncName(fn)), "append at "+p.Rel(call.Pos()), "every translated target with (discovered) labels is listed; no further filter", strings.Join(probs, "; "))
+			}
+		}
+	}
+
 	// ---- R17.4
 	// who may replace the tables as a whole: the constructor and the reload only; an update touches the keys of the
 	// jobs it carries (the discovery manager's rounds need not contain every configured job)
@@ -536,6 +582,22 @@ func runC17(p *engine.Prog, r *engine.Report) {
 				}
 			}
 			walk(mu.Value, map[ssa.Value]bool{})
+			// every job of the update that has a configuration gets its slice installed: an iteration may only skip the
+			// store for a job without configuration
+			for _, pr := range jobLoop.header.Preds {
+				if !fi.IsBackEdge(pr, jobLoop.header) || mu.Block().Dominates(pr) {
+					continue
+				}
+				noCfg := false
+				for _, g := range fi.Guards(pr) {
+					if strings.HasPrefix(g, "eq(") && strings.Contains(g, "."+fCfg.Name()+"[") && strings.Contains(g, "nil") {
+						noCfg = true
+					}
+				}
+				if !noCfg {
+					*probs = append(*probs, "a job of the update can be passed over without its targets being installed (only a job without configuration may be skipped): "+strings.Join(nonStructural(fi.Guards(pr)), " ∧ "))
+				}
+			}
 			// keyed by the job being translated
 			if !strings.HasPrefix(fi.T(mu.Key).S, "rk:") {
 				*probs = append(*probs, "stored under "+fi.T(mu.Key).S+", not under the job of the update being translated")
@@ -590,6 +652,21 @@ func runC17(p *engine.Prog, r *engine.Report) {
 		}
 		if nStore != 1 {
 			probs = append(probs, fmt.Sprintf("%d stores to Explore.targets (want one whole-table replacement)", nStore))
+		}
+		// the replacement happens for every update: no return before it ("nothing changed" shortcuts compare counts or
+		// hashes and leave vanished targets tracked)
+		if nStore == 1 {
+			replaced := fi.MustPass(nil, nil, func(in ssa.Instruction) bool {
+				st, ok := in.(*ssa.Store)
+				if !ok {
+					return false
+				}
+				fa, ok := st.Addr.(*ssa.FieldAddr)
+				return ok && engine.FieldOf(fa) == fETargets
+			})
+			if !replaced {
+				probs = append(probs, "an update can return without replacing the table")
+			}
 		}
 		if mm != nil {
 			n := 0
